@@ -503,7 +503,7 @@ func init() {
 			{Name: "rewrite", Count: countFn(4000, 100000), Run: c12Rewrites},
 			{Name: "cond", Count: func(string) int { return 13 * 5 * 8 * 3 }, Run: c12Cond},
 		},
-		Floors: []core.Floor{{Key: "placements_run", Quick: 60000, Thor: 8000000}, {Key: "tag:placement:", Quick: 30, Thor: 30}, {Key: "tag:rewrite:", Quick: 5, Thor: 5}, {Key: "tag:cond:", Quick: 20, Thor: 20}, {Key: "nontrivial", Quick: 3000, Thor: 300000}},
+		Floors: []core.Floor{{Key: "placements_run", Quick: 60000, Thor: 3000000}, {Key: "tag:placement:", Quick: 30, Thor: 30}, {Key: "tag:rewrite:", Quick: 5, Thor: 5}, {Key: "tag:cond:", Quick: 20, Thor: 20}, {Key: "nontrivial", Quick: 3000, Thor: 120000}},
 	})
 	core.CaseSeconds["C12/expr"] = 0.5
 }
